@@ -5,6 +5,7 @@ package c17
 
 import (
 	"bytes"
+	"context"
 	"encoding/json"
 	"fmt"
 	"os"
@@ -42,6 +43,9 @@ type modeT struct {
 	CacheLeaves int  `json:"cache_leaves"` // 0: do not pass the option (default cache size)
 	Prefetch    int  `json:"prefetch"`
 	VerifyHash  bool `json:"verify_hash"`
+	// Preload: the caller reads the bundle's metadata (core.DownloadMetadata) on the Bundle object before
+	// handing it to NewReadOnlyFS, as a program inspecting the bundle before mounting it would
+	Preload bool `json:"preload_metadata,omitempty"`
 }
 
 type renameT struct {
@@ -236,6 +240,7 @@ func drawMode(t *rapid.T) modeT {
 		m.Prefetch = rapid.IntRange(0, 2).Draw(t, "prefetch")
 		m.VerifyHash = rapid.Bool().Draw(t, "verify")
 	}
+	m.Preload = rapid.IntRange(0, 3).Draw(t, "preload") == 0
 	return m
 }
 
@@ -478,6 +483,11 @@ func mount(sc *hx.Scratch, v *hx.Views, repo, id string, m modeT, leaf uint32) (
 		core.BundleID(id),
 		core.Logger(hx.Nop),
 	)
+	if m.Preload {
+		if err := core.DownloadMetadata(context.Background(), b); err != nil {
+			return nil, fmt.Errorf("harness precondition: DownloadMetadata before mounting: %v", err)
+		}
+	}
 	opts := []dfuse.Option{dfuse.Streaming(m.Streamed), dfuse.Logger(hx.Nop)}
 	if m.Streamed {
 		if m.CacheLeaves > 0 {
